@@ -323,6 +323,40 @@ theorem intak_iff (env : Env P M) (hg : ∀ n, GameOK (env.game n)) (he : ∀ n,
               refine ⟨⟨(fun h => by cases h), (fun h => ?_)⟩, (fun h => by cases h)⟩
               exact absurd (by rw [hval]; exact hiff.mpr h.2) hwin
 
+/-- **the unguarded `pv[0]` of `IsPositionInTak` is never out of range** — the handler indexes the PV without a length
+check when `value > WinThreshold`.  On a server with any (uncancelled) past, whenever the handler gets that far (the
+position parses, the pass succeeds, the cached depth-1 engine returns `(pv, value)`) a decisive value comes with a
+non-empty PV: a position already decided after the pass gets value 0, any other the value and the move of its best
+immediate outcome.  (Same hypotheses as `intak_iff`.) -/
+theorem intak_pv0_in_range (env : Env P M) (hg : ∀ n, GameOK (env.game n)) (he : ∀ n, EvalOK (env.game n))
+    (hb : ∀ n, EvalBounded (env.game n)) (hinj : ∀ n, HashInj (env.game n))
+    (reqs : List (Req M)) (hreq : ∀ r ∈ reqs, ReqOK Quiet r) (o : Oracle M) (ho : Quiet o)
+    (p q : P) (pv : List M) (v : Int) (c' : Cache M)
+    (hcall : callPlayer env o ((Server.run env {} reqs).2.istakCache.getPlayer env (env.size p) 1 true) q =
+      (.ok (pv, v), c')) :
+    v > Facts.winThreshold → pv ≠ [] := by
+  have hinv := (run_history Quiet env reqs {} hreq ⟨cacheInv_empty _ env, cacheInv_empty _ env⟩).2
+  generalize (Server.run env {} reqs).2 = s at hinv hcall
+  obtain ⟨ac, ic⟩ := s
+  obtain ⟨_, hic⟩ := hinv
+  obtain ⟨hgi, hsz, hd, hpr⟩ := getPlayer_inv Quiet env ic (env.size p) 1 true hic
+  obtain ⟨_, _, _, _, _, h, rs, eng, eng0, _, st, hok, hrun0, han, _, _⟩ :=
+    callPlayer_history Quiet env o ho _ q hgi pv v c' hcall
+  rw [hd, hpr] at hrun0 han
+  have ht0 := runCalls_t1 (hg (env.size q)) (he (env.size q)) (hb (env.size q)) (hinj (env.size q))
+    (playerCfg_depth1 env.tableEntries) (playerCfg_precise env.tableEntries 1) h _ hok (t1_new _ _) _ hrun0
+  obtain ⟨_, hover, hlive⟩ := analyze_depth1 (hg (env.size q)) (he (env.size q)) (hb (env.size q)) (hinj (env.size q))
+    (playerCfg_depth1 env.tableEntries) (playerCfg_precise env.tableEntries 1) ho.2 ho.1 q eng0 ht0 _ han
+  dsimp only at hover hlive
+  intro hwin hnil
+  by_cases hov : (env.game (env.size q)).over q = true
+  · have := hover hov
+    rw [this] at hwin
+    exact absurd hwin (by decide)
+  · obtain ⟨_, m, rest, c, hpv, _, _⟩ := hlive (by simpa using hov)
+    rw [hnil] at hpv
+    cases hpv
+
 /-! ## non-vacuity (evaluated by the kernel)
 
 `Serve.Toy.env`: the subtraction game (take 1 or 2; whoever faces the empty heap has lost) behind the handlers, engines
